@@ -7,6 +7,7 @@ import (
 
 	"verifharness/commitx"
 	"verifharness/hx"
+	"verifharness/txk"
 )
 
 func main() { hx.Main(run, "", nil, nil) }
@@ -58,6 +59,36 @@ func run(o hx.RunOpts) error {
 			}
 			if !mode.rb && ob.P1Err == nil && ob.P2Err == nil && ob.After.String() != exp {
 				s.Fail("C03/committed-writes-not-visible", "after Phase2Commit a later transaction does not see the writer's changes", "expected="+exp+" after="+ob.After.String())
+			}
+		}
+	}
+	// "… and after it aborts": commits that FAIL at a registry write of their own (reservation, removal marks, the flip),
+	// before or after the write took effect; afterwards a cold reader must find every item as before
+	nfail := o.N(6, 40)
+	for i := 0; i < nfail; i++ {
+		pr := commitx.Gen(p.Fork())
+		pr.SepVals = false
+		base, err := commitx.Run(ctx, pr, "", 0, txk.None, false)
+		if err != nil {
+			return err
+		}
+		if base.SetupErr != nil || base.Res == nil || base.Res.OpenErr != nil {
+			s.Hit("skipped_program")
+			continue
+		}
+		occ := map[string]int{}
+		for _, name := range commitx.CommitCalls(base.Res) {
+			occ[name]++
+			if name != "reg.UpdateNoLocks" && name != "plog.Add" {
+				continue
+			}
+			for _, kind := range []txk.Fault{txk.FailBefore, txk.FailAfter} {
+				ob, err := commitx.Run(ctx, pr, name, occ[name], kind, false)
+				if err != nil {
+					return err
+				}
+				commitx.EmitAndJudge(ctx, s, ob, "C03", fmt.Sprintf("%s %s#%d:%v", pr.Header(), name, occ[name], kind))
+				s.Hit("failed_commit_runs")
 			}
 		}
 	}
